@@ -276,15 +276,28 @@ func run(c Case) (o evid.Outcome, err error) {
 		}
 	}
 	// (4) tables: exactly those of sent commits within depth of a want
+	// Distance is counted from the wants that actually need sending, along the history that is
+	// sent: a want that is itself common, or a path through an acknowledged common commit, brings
+	// nothing the other side lacks. "may" uses plain distance (upper bound), "must" the distance
+	// along paths that avoid acknowledged commons (lower bound).
+	mayTables := map[string]bool{}
 	wantTables := map[string]bool{}
-	dist := bfsDist(g, wantNodes)
+	dist := bfsDist(g, wantNodes, nil)
+	isCommon := map[int]bool{}
+	for _, cn := range commonNodes {
+		isCommon[cn] = true
+	}
+	distMust := bfsDist(g, wantNodes, isCommon)
 	for i := range first {
-		if c.Depth == 0 || dist[i] < c.Depth {
+		if d, ok := dist[i]; ok && (c.Depth == 0 || d < c.Depth) {
+			mayTables[string(tableOf[i])] = true
+		}
+		if d, ok := distMust[i]; ok && (c.Depth == 0 || d < c.Depth) {
 			wantTables[string(tableOf[i])] = true
 		}
 	}
 	for tb := range tablesToSend {
-		if !wantTables[tb] {
+		if !mayTables[tb] {
 			return o, fmt.Errorf("table %x selected although no sent commit within depth %d carries it", tb, c.Depth)
 		}
 	}
@@ -341,10 +354,13 @@ func listIdx(commits []*objects.Commit, idx map[string]int) []int {
 	return out
 }
 
-func bfsDist(g model.Graph, starts []int) map[int]int {
+func bfsDist(g model.Graph, starts []int, stop map[int]bool) map[int]int {
 	dist := map[int]int{}
 	q := []int{}
 	for _, s := range starts {
+		if stop[s] {
+			continue
+		}
 		if _, ok := dist[s]; !ok {
 			dist[s] = 0
 			q = append(q, s)
@@ -354,6 +370,9 @@ func bfsDist(g model.Graph, starts []int) map[int]int {
 		x := q[0]
 		q = q[1:]
 		for _, p := range g.Parents[x] {
+			if stop[p] {
+				continue
+			}
 			if _, ok := dist[p]; !ok {
 				dist[p] = dist[x] + 1
 				q = append(q, p)
